@@ -821,5 +821,5 @@ pub fn program(rng: &mut Prng, id: &str) -> Case {
         args.push("{}".to_string());
     }
     let witness = Some(mk(g.rng, &witnesses));
-    Case { id: id.to_string(), origin: "generated", text: Arc::from(text), args, witness }
+    Case { id: id.to_string(), origin: "generated", text: Arc::from(text), args, witness, family: usize::MAX }
 }
